@@ -83,6 +83,18 @@ func NewStatusError(code codes.Code, err error, details ...protoiface.MessageV1)
 // Unknown code and Fault characteristic set.
 func EncodeError(err error) error {
 	if st, ok := status.FromError(err); ok {
+		var gerr *goa.ServiceError
+		if inherited := st.Proto().GetDetails(); len(inherited) > 0 && errors.As(err, &gerr) {
+			// err is a goa ServiceError that wraps a gRPC status error which already
+			// carries details (e.g. the error returned by a downstream service).
+			// DecodeError reads the first detail: the response that describes err
+			// goes first, the inherited details follow.
+			if s, derr := status.New(st.Code(), st.Message()).WithDetails(NewErrorResponse(err)); derr == nil {
+				p := s.Proto()
+				p.Details = append(p.Details, inherited...)
+				return status.FromProto(p).Err()
+			}
+		}
 		if s, err := st.WithDetails(NewErrorResponse(err)); err == nil {
 			return s.Err()
 		}
